@@ -209,6 +209,22 @@ CHECKS = {
              "on an object of the other.",
         note="trusted: the holder model; late destruction (before release) is allowed by the property and not flagged",
         design="DESIGN.md section 4, C17"),
+    "C18": dict(
+        engine="E1 space + E2 hist",
+        technique="bounded exhaustive enumeration of rows / byte strings / parameter tuples / operation sequences on the real modules, each compared with an independent reader (Python codecs, Python sqlite3, a byte-buffer twin file)",
+        text="csv: every row of one field (length <=2 quick / <=3 thorough), two fields and three short fields over {a, space, separator, quote, LF, CR} for four "
+             "separator/quote formats is serialised and deserialised in one shot and line by line (deserialize + deserialize_next per LF); the fields must "
+             "come back identical with a complete-record status. utf8: every byte string of length <=3 / <=4 over 16 bytes covering every lead, "
+             "continuation and illegal class; Python's codec decides validity; count, rawsize, string, at, substr, insert, remove, copy+append are compared "
+             "with Python for valid input, and every position of {null,-1,0..5,MAX} must give a result or a BLOC error. file: every sequence of <=3 / <=4 "
+             "operations from write string/bytes, seekset/cur/end, read string/bytes, readln, position, flush in each of the modes r, w, a, r+, w+, a+ on a "
+             "file with known content, compared step by step with a byte-buffer twin, and the file read back by Python after close. sqlite3: every parameter "
+             "tuple of <=2 items (sampled triples quick, all triples thorough) over 21 values (integer and decimal extremes, -0.0, subnormal, empty/quoted/"
+             "NUL/high-byte strings, empty and binary bytes, typed nulls, boolean) is bound by exec(sql, tuple) and read back by query() and, independently, "
+             "by Python's sqlite3 from the same database file: value and SQL type must match. Every method of the four modules is called with null / "
+             "out-of-range / wrong-type-state arguments on fresh, closed and null objects. Every case runs in its own process under ASan+UBSan.",
+        note="trusted: Python codecs/sqlite3, the twin-file semantics; size arguments capped; plplot cannot be built here and is not claimed; two utf8 findings recorded (KNOWN_FINDINGS.txt)",
+        design="DESIGN.md section 4, C18"),
 }
 
 NOT_YET = {}
